@@ -27,6 +27,18 @@ PatAlphabet == {"a", "b", "*", "?", "/"}
 RECURSIVE PStrs(_, _)
 PStrs(n, al) == IF n = 0 THEN {<<>>} ELSE LET s == PStrs(n - 1, al) IN s \cup {Append(x, c) : x \in {y \in s : Len(y) = n - 1}, c \in al}
 
+\* patterns are concatenations of up to MaxLen2 + 1 tokens, so that classes, ranges, negations, escapes and every
+\* way of leaving them unfinished occur next to each other and to the wildcards
+MTokens == {<<"a">>, <<"b">>, <<"*">>, <<"?">>, <<"/">>, <<"\\">>, <<"\\", "a">>, <<"\\", "\\">>, <<"\\", "[">>, <<"\\", "*">>,
+            <<"[", "a", "]">>, <<"[", "^", "a", "]">>, <<"[", "a", "-", "b", "]">>, <<"[", "b", "-", "a", "]">>,
+            <<"[", "\\", "]">>, <<"[", "\\", "a", "]">>, <<"[", "a", "\\", "]", "]">>, <<"[", "\\", "-", "a", "]">>,
+            <<"[", "\\", "\\", "]">>, <<"[", "^", "\\", "]">>, <<"[", "/", "]">>, <<"[", "^", "/", "]">>, <<"[", "*", "]">>,
+            <<"[", "]">>, <<"[", "a">>, <<"[", "^", "]">>, <<"[", "a", "-">>, <<"[", "a", "-", "]">>, <<"[", "-", "a", "]">>,
+            <<"[", "]", "a", "]">>, <<"[">>, <<"]">>, <<"-">>, <<"^">>, <<"[", "a", "b", "]">>, <<"[", "^", "a", "-", "b", "]">>}
+RECURSIVE MPats(_)
+MPats(k) == IF k = 0 THEN {<<>>} ELSE LET s == MPats(k - 1) IN s \cup {x \o t : x \in s, t \in MTokens}
+MNames == PStrs(2, {"a", "b", "/", "\\", "-", "]", "_"})
+
 Two(a, b) ==
     [a |-> a, b |-> b, join |-> Join2("linux", a, b), rel |-> RelL(a, b).path, relerr |-> RelL(a, b).err,
      windom |-> InWinDomain(a) /\ InWinDomain(b) /\ InWinDomain(a \o <<"\\">> \o b)]
@@ -36,19 +48,24 @@ Emit(rec) == IF EdgeFile = "" THEN TRUE ELSE CSVWrite("%1$s", <<ToJson(rec)>>, E
 
 Init == phase = "go" /\ cur \in ({[t |-> "one", s |-> s, b |-> <<>>] : s \in Strs(MaxLen1)}
                                  \cup {[t |-> "two", s |-> a, b |-> b] : a \in Strs(MaxLen2), b \in Strs(MaxLen2)}
-                                 \cup {[t |-> "match", s |-> p, b |-> n] : p \in PStrs(MaxLen2 + 1, PatAlphabet), n \in PStrs(MaxLen2 + 1, {"a", "b", "/"})})
+                                 \cup {[t |-> "match", s |-> p, b |-> n] : p \in PStrs(MaxLen2 + 1, PatAlphabet), n \in PStrs(MaxLen2 + 1, {"a", "b", "/"})}
+                                 \cup {[t |-> "match", s |-> p, b |-> n] : p \in MPats(MaxLen2), n \in MNames})
 Next == /\ phase = "go" /\ phase' = "done" /\ cur' = cur
         /\ CASE cur.t = "one" ->
                   /\ Emit([t |-> "one", r |-> One("linux", cur.s)])
                   /\ (IF InWinDomain(cur.s) THEN Emit([t |-> "one", r |-> One("windows", cur.s)]) ELSE TRUE)
              [] cur.t = "two" -> Emit([t |-> "two", r |-> Two(cur.s, cur.b)])
-             [] cur.t = "match" -> Emit([t |-> "match", p |-> cur.s, n |-> cur.b, m |-> MatchL(cur.s, cur.b)])
+             [] cur.t = "match" -> Emit([t |-> "match", p |-> cur.s, n |-> cur.b, m |-> MatchL(cur.s, cur.b),
+                                         lm |-> Match("linux", cur.s, cur.b), wm |-> Match("windows", cur.s, cur.b)])
 Spec == Init /\ [][Next]_vars
 
 \* algebraic laws checked on the specification itself
 CleanIdempotent == cur.t = "one" => (Clean("linux", Clean("linux", cur.s)) = Clean("linux", cur.s)
                                        /\ (InWinDomain(cur.s) /\ InWinDomain(Clean("windows", cur.s))
                                             => Clean("windows", Clean("windows", cur.s)) = Clean("windows", cur.s)))
+\* the simple matcher used by the enumeration specification agrees with the full one where both apply
+MatchAgrees == (cur.t = "match" /\ \A i \in DOMAIN cur.s : cur.s[i] \in PatAlphabet) =>
+                   (Match("linux", cur.s, cur.b) = IF MatchL(cur.s, cur.b) THEN "true" ELSE "false")
 SplitReassembles == cur.t = "one" => (Split("linux", cur.s).dir \o Split("linux", cur.s).file = cur.s
                                         /\ Split("windows", cur.s).dir \o Split("windows", cur.s).file = cur.s)
 =============================================================================
